@@ -4,7 +4,7 @@
    writers and nested compounds included).  [leaves m]: the non-compound members in order (nested
    compounds flattened).  [members_parsed imgs]: the generic parser applied to each image in order, cut
    after the first image it rejects (C11's iteration rule). *)
-From RtcpV Require Import Proofs.C14.
+From RtcpV Require Import Proofs.C14 Proofs.C14b.
 
 Theorem C14_accepted_iff_members_valid_and_only_last_padded :
   forall ms : list member,
@@ -59,3 +59,17 @@ Check C14_builder_output_is_self_framed :
     (match m with MCompound _ => False | _ => True end) -> member_wf m -> m_calc m = Ok n ->
     (N.of_nat n <= 262144)%N -> self_framed (rfc_image m).
 Print Assumptions C14_builder_output_is_self_framed.
+
+(* write_into_unchecked of a compound called directly on a buffer longer than its size: the members still get
+   exact sub-slices, so the bytes are the same concatenation, the count returned is the size and the rest of
+   the buffer is untouched *)
+Theorem C14_unchecked_write_into_a_longer_buffer :
+  forall (ms : list member) (n : nat) (buf : bytes),
+    Forall member_wf ms -> m_calc (MCompound ms) = Ok n -> n <= length buf ->
+    m_write_unchecked (MCompound ms) buf = Ok (n, rfc_image (MCompound ms) ++ skipn n buf).
+Proof. exact compound_unchecked_on_any_buffer. Qed.
+Check C14_unchecked_write_into_a_longer_buffer :
+  forall (ms : list member) (n : nat) (buf : bytes),
+    Forall member_wf ms -> m_calc (MCompound ms) = Ok n -> n <= length buf ->
+    m_write_unchecked (MCompound ms) buf = Ok (n, rfc_image (MCompound ms) ++ skipn n buf).
+Print Assumptions C14_unchecked_write_into_a_longer_buffer.
